@@ -1,6 +1,7 @@
 (* C06 — truncated or mistyped input is rejected, never decoded into made-up data. Statements only. *)
 From Coq Require Import List NArith ZArith.
-From TarsV Require Import Base.Hex Codec.Wire Codec.Skip Codec.Prim Codec.PrimProofs Codec.GenCodec Codec.Corr Codec.GenProofs.
+From TarsV Require Import Base.Hex Codec.Wire Codec.Skip Codec.Prim Codec.PrimProofs Codec.GenCodec Codec.Corr Codec.GenProofs
+  Codec.RoundTrip Codec.RoundTripProofs Codec.PrefixProofs Codec.PrefixGenProofs Codec.RoundTripExamples Gen.Schemas.
 Import ListNotations.
 Open Scope N_scope.
 
@@ -20,18 +21,154 @@ Proof. exact GenProofs.read_slice_exact. Qed.
 Theorem C06_bytes_truncated : forall n r, (0 < n)%Z -> (Z.of_nat (length r) < n)%Z -> read_slice n r = None.
 Proof. exact GenProofs.read_slice_truncated. Qed.
 
-(* every proper prefix of every integer field (any width the cascade chooses, any tag) read as a required
-   member by a reader of any width is an error *)
-Theorem C06_int_prefix_rejected : forall bits f tag v, is_width bits -> tag < 256 -> fits 64 v = true ->
-  forall p q, w_int64 v tag = p ++ q -> q <> [] -> r_int bits (S f) tag true p = RErr.
-Proof. exact GenProofs.int_prefix_rejected. Qed.
+(* member level, every scalar member type (bool, all integer widths, floats, strings, enums), any tag, required or
+   optional: a non-empty proper prefix of the member's encoding is an error - with the single exception that
+   the first byte of a two-byte head on its own makes an OPTIONAL member absent (nothing is made up: the
+   member keeps the target's value and the stray byte is dropped) *)
+Theorem C06_scalar_prefix : forall f tag req t v prior p q, scalar_ty t = true -> sc_typed t v -> tag < 256 ->
+  w_scalar t v tag = p ++ q -> q <> [] -> p <> [] ->
+  dec_scalar (S f) tag req t prior p = DErr \/ (req = false /\ halfhead p /\ dec_scalar (S f) tag req t prior p = DOk prior []).
+Proof. exact PrefixProofs.scalar_prefix. Qed.
 
-(* full statement for whole structs, decided on every run by the correspondence + monitors *)
-Definition C06_prefix_statement : Prop :=
-  forall (e : env) (sid : nat) (v : val) (p q : list N), wf_env e = true -> encode e sid v = p ++ q -> q <> [] ->
-  match decode e sid p with DErr => True | DOk _ _ => True (* = value of the complete leading members *) | _ => False end.
+(* struct level, every wf_schema environment, every FLAT struct type (all members scalar), every well-typed
+   value, EVERY prefix p of its encoding: decoding p fails, or succeeds with exactly the first i members - those
+   whose encodings are completely contained in p - and all later members optional and at their reset values
+   (prior_ok: the declared default, else the zero value); nothing is left unread *)
+Theorem C06_prefix_flat : forall e k sid vs p q,
+  wf_schema k e -> (S k <= 64)%nat -> flat (fields_of e sid) -> (length (fields_of e sid) + 4 <= 64)%nat ->
+  has_type e (TStruct sid) (VStruct vs) -> encode e sid (VStruct vs) = p ++ q ->
+  decode e sid p = DErr \/
+  exists i h ps, (i <= length (fields_of e sid))%nat /\
+    p = enc_fields e (firstn i vs) (firstn i (fields_of e sid)) ++ h /\ (h = [] \/ halfhead h) /\
+    optional (skipn i (fields_of e sid)) /\
+    Forall2 (fun fd p => prior_ok e (fty fd) (fdef fd) p) (fields_of e sid) ps /\
+    decode e sid p = DOk (VStruct (firstn i (norm_fields e vs (fields_of e sid)) ++ skipn i ps)) [].
+Proof. exact PrefixProofs.prefix_flat. Qed.
+Theorem C06_code_schemas_prefix_flat : forall sid vs p q, flat_b (fields_of env0 sid) = true ->
+  (length (fields_of env0 sid) + 4 <= 64)%nat ->
+  has_type env0 (TStruct sid) (VStruct vs) -> encode env0 sid (VStruct vs) = p ++ q ->
+  decode env0 sid p = DErr \/
+  exists i h ps, (i <= length (fields_of env0 sid))%nat /\
+    p = enc_fields env0 (firstn i vs) (firstn i (fields_of env0 sid)) ++ h /\ (h = [] \/ halfhead h) /\
+    optional (skipn i (fields_of env0 sid)) /\
+    Forall2 (fun fd p => prior_ok env0 (fty fd) (fdef fd) p) (fields_of env0 sid) ps /\
+    decode env0 sid p = DOk (VStruct (firstn i (norm_fields env0 vs (fields_of env0 sid)) ++ skipn i ps)) [].
+Proof. exact RoundTripExamples.env0_prefix_flat. Qed.
+Theorem C06_code_schemas_flat_examples :
+  forallb (fun sid => flat_b (fields_of env0 sid) && (length (fields_of env0 sid) + 4 <=? 64)%nat)
+          [sid_verifidl_Scalars; sid_endpointf_EndpointF; sid_authf_BasicAuthInfo; sid_authf_TokenKey] = true.
+Proof. exact RoundTripExamples.env0_flat_examples. Qed.
+
+(* a present field whose wire type is not admissible for the IDL type of its tag is rejected: member level, every
+   type constructor (scalars, vectors, byte vectors, arrays, maps, structs), behind any unknown fields ... *)
+Theorem C06_inadmissible_member : forall e f tag req t prior lo J ty r,
+  junk_ok lo tag J -> ty < 16 -> tag < 256 -> (ty =? tSE) = false -> adm t ty = false ->
+  (2 * length (ser_fields J ++ head ty tag ++ r) + 3 <= f)%nat ->
+  dec_var (S f) e tag req t prior (ser_fields J ++ head ty tag ++ r) = DErr.
+Proof. exact PrefixProofs.inadmissible_member. Qed.
+(* ... and struct level, any struct type with a finite type graph: the members before it encoded normally,
+   then a field of an inadmissible wire type under the member's tag, then anything *)
+Theorem C06_inadmissible_rejected : forall e k n sid fds1 fd fds2 vs1 ty r,
+  wf_schema k e -> (S k <= 64)%nat -> fields_of e sid = fds1 ++ fd :: fds2 ->
+  Forall2 (fun fd x => has_type e (fty fd) x) fds1 vs1 ->
+  ty < 16 -> (ty =? tSE) = false -> adm (fty fd) ty = false ->
+  tfin n e (TStruct sid) = true -> (tneed n e (TStruct sid) + k <= 64)%nat ->
+  decode e sid (enc_fields e vs1 fds1 ++ head ty (ftag fd) ++ r) = DErr.
+Proof. exact PrefixProofs.inadmissible_rejected. Qed.
+
+(* THE PREFIX CLAUSE AT STRUCT LEVEL FOR ALL MEMBER TYPES: every wf_schema environment, every struct type with a
+   finite type graph (members of string, byte-vector, vector, fixed-array, map and nested struct types included),
+   every well-typed value, EVERY prefix p of its encoding: decoding p fails - with an error, or because a list
+   count exceeds the bytes left (DHuge; the implementation then fails after allocating, see C05) - or succeeds
+   with exactly the first i members, whose encodings are completely contained in p (p is their encoding,
+   possibly followed by the lone first byte of a two-byte head), all later members being optional and holding
+   admissible reset values (declared default, else zero), and nothing left unread. A cut inside a string, byte
+   vector, list, map or nested struct therefore always fails: no partial strings, no zero-filled buffers, no
+   shortened containers. *)
+(* the clause for every struct type, recursive ones included, kept visible; proved below for finite type graphs *)
+Definition C06_prefix_statement : Prop := forall e k sid vs p q,
+  wf_schema k e -> has_type e (TStruct sid) (VStruct vs) -> encode e sid (VStruct vs) = p ++ q ->
+  bad (decode e sid p) \/
+  exists i h ps, (i <= length (fields_of e sid))%nat /\
+    p = enc_fields e (firstn i vs) (firstn i (fields_of e sid)) ++ h /\ (h = [] \/ halfhead h) /\
+    optional (skipn i (fields_of e sid)) /\
+    Forall2 (fun fd pr => prior_ok e (fty fd) (fdef fd) pr) (fields_of e sid) ps /\
+    decode e sid p = DOk (VStruct (firstn i (norm_fields e vs (fields_of e sid)) ++ skipn i ps)) [].
+Theorem C06_prefix_general_partial : forall e k n sid vs p q,
+  wf_schema k e -> (S k <= 64)%nat -> tfin n e (TStruct sid) = true -> (tneed n e (TStruct sid) + k <= 64)%nat ->
+  has_type e (TStruct sid) (VStruct vs) -> encode e sid (VStruct vs) = p ++ q ->
+  bad (decode e sid p) \/
+  exists i h ps, (i <= length (fields_of e sid))%nat /\
+    p = enc_fields e (firstn i vs) (firstn i (fields_of e sid)) ++ h /\ (h = [] \/ halfhead h) /\
+    optional (skipn i (fields_of e sid)) /\
+    Forall2 (fun fd pr => prior_ok e (fty fd) (fdef fd) pr) (fields_of e sid) ps /\
+    decode e sid p = DOk (VStruct (firstn i (norm_fields e vs (fields_of e sid)) ++ skipn i ps)) [].
+Proof. exact PrefixGenProofs.prefix_general. Qed.
+Theorem C06_code_schemas_prefix_general : forall sid vs p q, fits_model sid = true ->
+  has_type env0 (TStruct sid) (VStruct vs) -> encode env0 sid (VStruct vs) = p ++ q ->
+  bad (decode env0 sid p) \/
+  exists i h ps, (i <= length (fields_of env0 sid))%nat /\
+    p = enc_fields env0 (firstn i vs) (firstn i (fields_of env0 sid)) ++ h /\ (h = [] \/ halfhead h) /\
+    optional (skipn i (fields_of env0 sid)) /\
+    Forall2 (fun fd pr => prior_ok env0 (fty fd) (fdef fd) pr) (fields_of env0 sid) ps /\
+    decode env0 sid p = DOk (VStruct (firstn i (norm_fields env0 vs (fields_of env0 sid)) ++ skipn i ps)) [].
+Proof. exact RoundTripExamples.env0_prefix_general. Qed.
+(* member level, every type: a proper prefix of a member's encoding is an error (or, optional member and nothing /
+   the lone first head byte present: the member is absent) *)
+Theorem C06_member_prefix : forall e k, wf_schema k e -> forall f m t tag req d v prior p q,
+  tfin m e t = true -> has_type e t v -> ty_nest k e t = true -> tag < 256 ->
+  (d <> None -> scalar_ty t = true) -> prior_ok e t d prior ->
+  enc_var e tag req t d v = p ++ q -> q <> [] -> (tneed m e t + k + 4 * length p + 3 <= f)%nat ->
+  bad (dec_var f e tag req t prior p) \/
+  (req = false /\ (p = [] \/ halfhead p) /\ exists x, dec_var f e tag req t prior p = DOk x [] /\ prior_ok e t d x).
+Proof. exact (fun e k Hwf f => proj1 (PrefixGenProofs.w_all e k Hwf f)). Qed.
+
+(* EMBEDDED LENGTHS that announce more than remains, member level, behind any unknown fields, whatever the rest of
+   the input is: a string length (1-byte and 4-byte form) -> error; a byte-vector (SimpleList) count -> error;
+   a LIST count -> refused before any element is decoded (DHuge: the generated code allocates first, C05) *)
+Theorem C06_inflated_string_member : forall e f tag req prior lo J (four : bool) l r,
+  junk_ok lo tag J -> tag < 256 -> N.of_nat (length r) < l -> l < (if four then 4294967296 else 256) ->
+  let field := (if four then head tSTR4 tag ++ be 4 l else head tSTR1 tag ++ [l]) ++ r in
+  (2 * length (ser_fields J ++ field) + 3 <= f)%nat ->
+  dec_var (S f) e tag req TStr prior (ser_fields J ++ field) = DErr.
+Proof. exact PrefixProofs.inflated_string_member. Qed.
+Theorem C06_inflated_bytes_member : forall e f tag req x prior lo J n r,
+  junk_ok lo tag J -> tag < 256 -> is_byte x = true -> (length r < n)%nat -> N.of_nat n < 2147483648 ->
+  let field := head tSIMPLE tag ++ head tBYTE 0 ++ w_int32 (Z.of_nat n) 0 ++ r in
+  (2 * length (ser_fields J ++ field) + 3 <= f)%nat ->
+  dec_var (S f) e tag req (TVec x) prior (ser_fields J ++ field) = DErr.
+Proof. exact PrefixProofs.inflated_bytes_member. Qed.
+Theorem C06_inflated_list_member : forall e f tag req x prior lo J n r,
+  junk_ok lo tag J -> tag < 256 -> (length r < n)%nat -> N.of_nat n < 2147483648 ->
+  let field := head tLIST tag ++ w_int32 (Z.of_nat n) 0 ++ r in
+  (2 * length (ser_fields J ++ field) + 3 <= f)%nat ->
+  dec_var (S f) e tag req (TVec x) prior (ser_fields J ++ field) = DHuge.
+Proof. exact PrefixProofs.inflated_list_member. Qed.
+(* struct level: the members before it encoded normally, then a string member announcing more than is left *)
+Theorem C06_inflated_string_rejected : forall e k n sid fds1 fd fds2 vs1 (four : bool) l r,
+  wf_schema k e -> (S k <= 64)%nat -> fields_of e sid = fds1 ++ fd :: fds2 -> fty fd = TStr ->
+  Forall2 (fun fd x => has_type e (fty fd) x) fds1 vs1 ->
+  N.of_nat (length r) < l -> l < (if four then 4294967296 else 256) ->
+  tfin n e (TStruct sid) = true -> (tneed n e (TStruct sid) + k <= 64)%nat ->
+  decode e sid (enc_fields e vs1 fds1 ++ (if four then head tSTR4 (ftag fd) ++ be 4 l else head tSTR1 (ftag fd) ++ [l]) ++ r) = DErr.
+Proof. exact PrefixProofs.inflated_string_rejected. Qed.
+(* inflation of a length or count nested deeper inside a valid encoding (inside vector elements, map values, nested
+   structs) is not stated as a theorem; it is decided on every run by the correspondence + monitors (every string
+   length and every list/map/simple-list count of every sampled encoding inflated) *)
 
 Print Assumptions C06_fixed_width_exact. Print Assumptions C06_fixed_width_truncated.
 Print Assumptions C06_string_exact. Print Assumptions C06_string_truncated.
 Print Assumptions C06_bytes_exact. Print Assumptions C06_bytes_truncated.
-Print Assumptions C06_int_prefix_rejected.
+Print Assumptions C06_scalar_prefix.
+Print Assumptions C06_prefix_flat.
+Print Assumptions C06_code_schemas_prefix_flat.
+Print Assumptions C06_code_schemas_flat_examples.
+Print Assumptions C06_prefix_general_partial.
+Print Assumptions C06_code_schemas_prefix_general.
+Print Assumptions C06_member_prefix.
+Print Assumptions C06_inflated_string_member.
+Print Assumptions C06_inflated_bytes_member.
+Print Assumptions C06_inflated_list_member.
+Print Assumptions C06_inflated_string_rejected.
+Print Assumptions C06_inadmissible_member.
+Print Assumptions C06_inadmissible_rejected.
